@@ -408,12 +408,14 @@ struct Sys {
     stale_root: Option<Box<dyn WritableZoneNode>>,
     /// some operation through `stale_root` was accepted by the implementation
     stale_effective: bool,
+    /// shadow run: operations through `stale_root` are skipped
+    skip_stale: bool,
     committed: Content,
     pending: Content,
     pre_session: Option<Snap>,
 }
 
-struct Fail { class: &'static str, detail: String }
+struct Fail { class: &'static str, detail: String, step: usize }
 
 static FAIL_COUNTS: Mutex<BTreeMap<&'static str, u64>> = Mutex::new(BTreeMap::new());
 
@@ -429,7 +431,7 @@ impl Sys {
                 Init::Cut(n, ns, ds, g) => { let c = mk_cut(n, *ns, *ds, *g); b.insert_zone_cut(&n.abs(), c.ns, c.ds, c.glue).unwrap(); content.sp.insert(n.clone(), Sp::Cut(*ns, *ds, *g)); }
             }
         }
-        Sys { rt, zone: b.build(), universe, types, readers: BTreeMap::new(), writer: None, queued: None, root: None, stale_root: None, stale_effective: false,
+        Sys { rt, zone: b.build(), universe, types, readers: BTreeMap::new(), writer: None, queued: None, root: None, stale_root: None, stale_effective: false, skip_stale: false,
               committed: content.clone(), pending: content, pre_session: None }
     }
 
@@ -441,7 +443,7 @@ impl Sys {
             let (o, which) = observe_full(rd, n, T_ANY);
             if let Some((t, id)) = which {
                 let same = observe(rd, n, t);
-                if same != format!("D{}", id) { fails.push(Fail { class: "any_not_in_version", detail: format!("ANY at {} returned type {} id {} but a query for that type answers {}", n.word(), t, id, same) }); }
+                if same != format!("D{}", id) { fails.push(Fail { step: 0, class: "any_not_in_version", detail: format!("ANY at {} returned type {} id {} but a query for that type answers {}", n.word(), t, id, same) }); }
             }
             m.insert((n.clone(), T_ANY), o);
         }
@@ -492,9 +494,9 @@ impl Sys {
     fn compare(&self, old: &Snap, new: &Snap, class: &'static str, who: &str, fails: &mut Vec<Fail>) {
         for (k, o) in &old.0 {
             let n = &new.0[k];
-            if o != n { fails.push(Fail { class, detail: format!("{}: {} type {}: {} -> {}", who, k.0.word(), k.1, o, n) }); }
+            if o != n { fails.push(Fail { step: 0, class, detail: format!("{}: {} type {}: {} -> {}", who, k.0.word(), k.1, o, n) }); }
         }
-        if old.1 != new.1 { fails.push(Fail { class: "walk_mismatch", detail: format!("{}: walk {} -> {}", who, show_walk(&old.1), show_walk(&new.1)) }); }
+        if old.1 != new.1 { fails.push(Fail { step: 0, class: "walk_mismatch", detail: format!("{}: walk {} -> {}", who, show_walk(&old.1), show_walk(&new.1)) }); }
     }
 
     /// data-level check of a fresh reader against the oracle's committed content
@@ -502,7 +504,7 @@ impl Sys {
         let rd = self.zone.read();
         let w = walk_of(rd.as_ref());
         let want = self.committed.walk();
-        if w != want { fails.push(Fail { class: "walk_mismatch", detail: format!("{}: fresh reader walk {}, committed content {}", when, show_walk(&w), show_walk(&want)) }); }
+        if w != want { fails.push(Fail { step: 0, class: "walk_mismatch", detail: format!("{}: fresh reader walk {}, committed content {}", when, show_walk(&w), show_walk(&want)) }); }
         let wild = self.committed.any_wildcard();
         for n in &self.universe {
             // below or at a zone cut the zone only refers
@@ -515,13 +517,13 @@ impl Sys {
                     None => self.committed.rr.get(&(n.clone(), *t)).map(|rr| format!("D{}", rr)),
                 };
                 match want {
-                    Some(wd) if wd == "N" => if !o.starts_with("N(") { fails.push(Fail { class, detail: format!("{}: fresh reader {} type {}: {} expected NODATA", when, n.word(), t, o) }); },
-                    Some(wd) => if o != wd { fails.push(Fail { class, detail: format!("{}: fresh reader {} type {}: {} expected {}", when, n.word(), t, o, wd) }); },
+                    Some(wd) if wd == "N" => if !o.starts_with("N(") { fails.push(Fail { step: 0, class, detail: format!("{}: fresh reader {} type {}: {} expected NODATA", when, n.word(), t, o) }); },
+                    Some(wd) => if o != wd { fails.push(Fail { step: 0, class, detail: format!("{}: fresh reader {} type {}: {} expected {}", when, n.word(), t, o, wd) }); },
                     None => {
                         let nodata = o.starts_with("X(") || o.starts_with("N(");
                         // a name without own content may be answered from a wildcard
                         let own = self.committed.rr.keys().any(|k| n.is_prefix_of(&k.0)) || self.committed.sp.keys().any(|k| n.is_prefix_of(k));
-                        if !nodata && !(wild && !own && !n.0.is_empty()) { fails.push(Fail { class, detail: format!("{}: fresh reader {} type {}: {} but the committed content has no such record", when, n.word(), t, o) }); }
+                        if !nodata && !(wild && !own && !n.0.is_empty()) { fails.push(Fail { step: 0, class, detail: format!("{}: fresh reader {} type {}: {} but the committed content has no such record", when, n.word(), t, o) }); }
                     }
                 }
             }
@@ -551,10 +553,10 @@ impl Sys {
                 let got = self.try_write();
                 obs = Some(if got.is_some() { "granted".into() } else { "pending".into() });
                 if had {
-                    if got.is_some() { fails.push(Fail { class: "second_writer_granted", detail: "write().await completed while another WritableZone is alive".into() }); }
+                    if got.is_some() { fails.push(Fail { step: 0, class: "second_writer_granted", detail: "write().await completed while another WritableZone is alive".into() }); }
                     drop(got);
                 } else {
-                    if got.is_none() { fails.push(Fail { class: "writer_lock_stuck", detail: "write().await pending although no writer exists".into() }); }
+                    if got.is_none() { fails.push(Fail { step: 0, class: "writer_lock_stuck", detail: "write().await pending although no writer exists".into() }); }
                     if got.is_some() { self.begin_session(fails); }
                     self.writer = got;
                 }
@@ -569,7 +571,7 @@ impl Sys {
                     self.rt.block_on(async { tokio::task::yield_now().await; tokio::task::yield_now().await; });
                     if h.is_finished() {
                         obs = Some("granted".into());
-                        fails.push(Fail { class: "second_writer_granted", detail: "queued write().await completed while another WritableZone is alive".into() });
+                        fails.push(Fail { step: 0, class: "second_writer_granted", detail: "queued write().await completed while another WritableZone is alive".into() });
                         let _ = self.rt.block_on(h);
                     } else {
                         obs = Some("pending".into());
@@ -584,7 +586,7 @@ impl Sys {
                         Ok(Ok(w)) => { obs = Some("granted".into()); self.begin_session(fails); self.writer = Some(w); }
                         _ => {
                             obs = Some("pending".into());
-                            fails.push(Fail { class: "writer_lock_stuck", detail: "queued write().await still pending after the writer was dropped".into() });
+                            fails.push(Fail { step: 0, class: "writer_lock_stuck", detail: "queued write().await still pending after the writer was dropped".into() });
                         }
                     }
                 } else { obs = Some("granted".into()); }
@@ -606,6 +608,7 @@ impl Sys {
                     self.pending = self.committed.clone();
                 }
             }
+            Ev::Stale(_) if self.skip_stale => {}
             Ev::Stale(d) => {
                 obs = Some(if self.stale_root.is_none() { "snone".to_string() } else {
                     match self.data_op(d, true) { Ok(()) => { self.stale_effective = true; "sdone".into() } Err(_) => "srej".into() }
@@ -650,16 +653,40 @@ fn run_trace(out: &mut Out, inits: &[Init], evs: &[Ev], universe: Vec<Nm>, kind:
     let case = format!("zt {} ; {}", inits.iter().map(|i| i.word()).collect::<Vec<_>>().join(" "), evs.iter().map(|e| e.word()).collect::<Vec<_>>().join(" "));
     out.begin(&case);
     let types = vec![T_A, T_TXT, T_AAAA, T_SOA, T_DS];
-    let r = catch_mut(|| {
-        let mut sys = Sys::new(inits, universe, types);
-        let mut fails: Vec<Fail> = vec![];
-        let mut obs: Vec<String> = vec![];
-        for e in evs {
-            if let Some(o) = sys.exec(e, &mut fails) { obs.push(o); }
-            if !matches!(e, Ev::Query(..) | Ev::Walk(..) | Ev::Release(..)) { sys.oracle(e, &mut fails); }
+    // A trace with operations through a retired handle is also run without them
+    // (the shadow).  A deviation of the real run is charged to the retired handle
+    // exactly if an operation through it had been accepted before and the same
+    // deviation does not occur at the same step of the shadow run; every other
+    // deviation keeps its own class.
+    let has_stale = evs.iter().any(|e| matches!(e, Ev::Stale(_)));
+    let run = |skip_stale: bool| {
+        let universe = universe.clone(); let types = types.clone();
+        catch_mut(move || {
+            let mut sys = Sys::new(inits, universe, types);
+            sys.skip_stale = skip_stale;
+            let mut fails: Vec<Fail> = vec![];
+            let mut obs: Vec<String> = vec![];
+            let mut first_stale: Option<usize> = None;
+            for (i, e) in evs.iter().enumerate() {
+                let n0 = fails.len();
+                if let Some(o) = sys.exec(e, &mut fails) { obs.push(o); }
+                if sys.stale_effective && first_stale.is_none() { first_stale = Some(i); }
+                if skip_stale && matches!(e, Ev::Stale(_)) { continue; }
+                if !matches!(e, Ev::Query(..) | Ev::Walk(..) | Ev::Release(..)) { sys.oracle(e, &mut fails); }
+                for f in fails[n0..].iter_mut() { f.step = i; }
+            }
+            (obs, fails, first_stale)
+        })
+    };
+    let shadow: Vec<(usize, &'static str, String)> = if has_stale {
+        match run(true) { Ok((_, f, _)) => f.into_iter().map(|f| (f.step, f.class, f.detail)).collect(), Err(_) => vec![] }
+    } else { vec![] };
+    let r = run(false).map(|(obs, mut fails, first_stale)| {
+        if let Some(s0) = first_stale {
+            for f in fails.iter_mut() {
+                if f.step >= s0 && !shadow.iter().any(|(st, c, d)| *st == f.step && *c == f.class && *d == f.detail) { f.class = "stale_node_handle_write"; }
+            }
         }
-        // once a write through a retired handle was accepted, whatever goes wrong afterwards is its doing
-        if sys.stale_effective { for f in fails.iter_mut() { f.class = "stale_node_handle_write"; } }
         (obs, fails)
     });
     let classes = ["snapshot_changed", "commit_not_atomic", "abort_visible", "walk_mismatch", "any_not_in_version",
@@ -947,6 +974,14 @@ fn main() {
         let evs = gen_trace(&mut r, &names, &targets, if a.thorough { 40 } else { 30 }, false);
         idx += 1;
         if out.wants(idx) { run_trace(&mut out, &inits, &evs, names.clone(), if create_ok { "zt_tree_create" } else { "zt_tree" }); }
+    }
+    // long histories: many successive versions, readers held across several of them
+    let n_long = if a.thorough { 1_500 } else { 40 } * a.scale;
+    for _ in 0..n_long {
+        let inits = gen_inits(&mut r, &names[..9], 3);
+        let evs = gen_trace(&mut r, &names, &names, 160, false);
+        idx += 1;
+        if out.wants(idx) { run_trace(&mut out, &inits, &evs, names.clone(), "zt_long"); }
     }
     // write handles kept beyond the commit/drop that ended their session
     {
